@@ -12,7 +12,7 @@ H3 == MkTree({}, (<<"x">> :> 11))
 MCInitTreesH == {H1, H2}
 MCInitTreesH1 == {H1}
 
-Behaviour == [init |-> TreePairs(init), limit |-> limit, trail |-> trail, tainted |-> tainted,
+Behaviour == [init |-> TreePairs(init), limit |-> limit0, trail |-> trail, tainted |-> tainted,
               neverDefined |-> (NeverTree # Poison),
               never |-> IF NeverTree = Poison THEN {} ELSE TreePairs(NeverTree)]
 Export == (Len(trail) = MaxSteps /\ pend.kind = "idle") => PrintT(<<"BEH", ToJson(Behaviour)>>)
